@@ -24,6 +24,15 @@ CHECKS = {
  "C10": ("exploration", "reference-model monitor (per-node LWW maps incl. tombstones) around real LocalState/MergeRemoteState exchanges after lossy gossip",
          "Seeded pairs of real node histories with 0-100% of the gossip between them lost for good, followed by a real snapshot exchange A->B, B->A, both ways or into a fresh node; the receiver's listing must equal the visible part of the LWW merge of both nodes' entries (removals included), a fresh node must list what the sender lists, and after both directions the nodes agree.",
          "Per-node reference built from the broadcasts each node issued/received (relies on C09). Ties give no verdict.", "5/C10"),
+ "C16": ("exploration", "table-lookup oracle over exhaustively enumerated credential files loaded by the real FileHandler, plus end-to-end CONNECTs",
+         "Every credential file of <=3 (quick) / <=4 (thorough) distinct users in every order with 2-field, 3-field and empty-mount-point lines (complete), seeded files of 4-6 entries, and the static handler are loaded by the real code; every present, wrong, swapped, absent and empty candidate is authenticated and compared with an exact table lookup including the mount point.",
+         "Second field of a line = hex SHA-256 of the password. User names distinct and CSV-safe.", "5/C16"),
+ "C01": ("exploration", "reference-matcher oracle (MQTT 3.1.1 4.7 on level arrays) over exhaustively enumerated filter x topic pairs on the real trie, seeded histories on the replicated index, and end-to-end delivery multisets behind a sentinel barrier",
+         "Trie: every valid filter of <=4 levels over {a,b,c,+,#,''} against every topic of <=4 levels over {a,b,c,''} (complete), filter sets reached by different orders and subscribe/unsubscribe/re-subscribe histories (all pairs in thorough). Index: ByPattern after every step of seeded Create/Delete histories. End to end: per-session multisets of uniquely tagged publishes compared with one-copy-per-matching-filter after a causal barrier.",
+         "Reference matcher is the spec, not the code. '$' topics and the empty string are outside the alphabets. Subscribers use QoS 0 end to end so no retransmissions need discounting.", "5/C01"),
+ "C02": ("exploration", "unique-tag conservation monitor at the client boundary over long publish streams against a broker node with the real on-disk commit log, behind a sentinel barrier",
+         "2200 (quick) / 6000 (thorough) uniquely tagged, content-hashed messages from concurrent publishers cross the first log offset, segment rolls and the truncation point; further streams run after node restarts on the same data directory and with an inbound/outbound packet-identifier collision; every acknowledged QoS>=1 publish must reach every subscriber that stayed connected, intact.",
+         "Duplicates allowed, QoS 0 publishes exempt. Barrier relies on per-publisher ordering and the FIFO log consumer/writer.", "5/C02"),
 }
 NOT_YET = "check not built yet in this round (design in DESIGN.md section 5); will be claimed once its monitor exists"
 
